@@ -524,6 +524,38 @@ pub fn oracle(map: &mut Beatmap, input: &str, origin: &str, out: &mut Out) -> Op
     Some(enc)
 }
 
+
+/// For every non-blank [HitObjects] line of an encoded text, in order: was it
+/// rejected when the text is read back line by line (accumulating state)?
+pub fn rejected_object_lines(enc: &str, version: i32) -> Vec<bool> {
+    let mut state = BeatmapState::create(version);
+    let mut sec: Option<Section> = None;
+    let mut res = vec![];
+    for raw in enc.split('\n') {
+        let l = raw.trim_end();
+        if l.is_empty() || Beatmap::should_skip_line(l) {
+            continue;
+        }
+        if let Some(s) = Section::try_from_line(l) {
+            sec = Some(s);
+            continue;
+        }
+        let ok = guarded(|| match sec {
+            Some(Section::General) => Beatmap::parse_general(&mut state, l).is_ok(),
+            Some(Section::Difficulty) => Beatmap::parse_difficulty(&mut state, l).is_ok(),
+            Some(Section::Events) => Beatmap::parse_events(&mut state, l).is_ok(),
+            Some(Section::TimingPoints) => Beatmap::parse_timing_points(&mut state, l).is_ok(),
+            Some(Section::HitObjects) => Beatmap::parse_hit_objects(&mut state, l).is_ok(),
+            _ => true,
+        })
+        .unwrap_or(false);
+        if sec == Some(Section::HitObjects) {
+            res.push(!ok);
+        }
+    }
+    res
+}
+
 /// D8: two timing points at the numerically equal times -0.0 / +0.0
 pub fn zero_time_class(map: &Beatmap) -> &'static str {
     let tp = &map.control_points.timing_points;
